@@ -695,7 +695,20 @@ pub fn run(lines: &[Value], opts: &SampleOpts) -> Summary {
             }
         }
         let mut cx = Ctx { line: &line, inst, idx, sm: &mut sm };
-        for pt in &pts {
+        // history twins: the same point again with its Box-Muller coordinates permuted (a <-> b inside every pair, and the
+        // pairs reversed): what was computed for the previous point must not be reused for this one
+        let base_bm = 2 * line.e - 1;
+        let twins: Vec<Point> = pts.iter().step_by(5).filter(|p| p.x.len() >= base_bm + 2).map(|p| {
+            let mut x = p.x.clone();
+            let tail: Vec<f64> = x[base_bm..].to_vec();
+            let npairs = tail.len() / 2;
+            for k in 0..npairs { let src = if k % 2 == 0 { k } else { npairs - 1 - k }; x[base_bm + 2 * k] = tail[2 * src + 1].max(f64::MIN_POSITIVE).min(1.0 - f64::EPSILON); x[base_bm + 2 * k + 1] = tail[2 * src]; }
+            Point { x, want_order: p.want_order.clone() }
+        }).collect();
+        let mut pts_all: Vec<&Point> = vec![];
+        let mut ti = 0;
+        for (k, p) in pts.iter().enumerate() { pts_all.push(p); if k % 5 == 0 && p.x.len() >= base_bm + 2 { pts_all.push(&twins[ti]); ti += 1; } }
+        for pt in pts_all {
             let stab = if opts.stab_all { Some([1e-3, 1e-9, 1e-16, 1.0][rng.gen_range(0..4)]) } else if rng.gen_bool(0.2) { Some(1e-3) } else { None };
             let mut res = vec![];
             for (ri, s) in samplers.iter().enumerate() {
